@@ -87,6 +87,9 @@ func init() {
 		{ID: "E1.findkey.candidate", Fn: "oidc.FindMatchingKey", P: []string{"keyID", "use", "expectedAlg", "keys"}, Kind: "store", Pat: "store($vk, append($vk, $k))",
 			Req: []string{`eq($k.Use, $use) || eq($k.Use, "")`, "true(oidc.algToKeyType($k.Key, $expectedAlg))", `eq($k.KeyID, "") || eq($keyID, "")`, "inloop($k, $keys)"}},
 		{ID: "E1.findkey.single", Fn: "oidc.FindMatchingKey", Kind: "ret ok", Pat: "ret($vk[0], nil)", Req: []string{"eq(len($vk), 1)"}},
+		{ID: "E8.findkey.deprecated-wrapper-delegates", Fn: "oidc.FindKey", P: []string{"keyID", "use", "expectedAlg", "keys"}, Kind: "call", Pat: "oidc.FindMatchingKey($keyID, $use, $expectedAlg, $keys)", Min: 1, Max: 1},
+		{ID: "E8.findkey.deprecated-wrapper-result", Fn: "oidc.FindKey", P: []string{"keyID", "use", "expectedAlg", "keys"}, Kind: "ret any", Max: 1,
+			Req: []string{"def($r0, oidc.FindMatchingKey($keyID, $use, $expectedAlg, $keys), 0)"}},
 		{ID: "E1.findkey.only", Fn: "oidc.FindMatchingKey", Kind: "ret ok", Max: 2},
 		{ID: "E1.findkey.ambiguous", Fn: "oidc.FindMatchingKey", Kind: "ret fail", Pat: "ret(_, oidc.ErrKeyMultiple)", Req: []string{"lt(1, len($vk))"}},
 		{ID: "E7.algkeytype.rsa", Fn: "oidc.algToKeyType", P: []string{"key", "alg"}, Kind: "ret ok",
@@ -97,7 +100,7 @@ func init() {
 		if strings.HasPrefix(o.ID, "E1.keyset.op") {
 			sharedObs["C06"] = append(sharedObs["C06"], o) // "passes the library's own verifiers": the OP's key set selects keys like every verifier (FindMatchingKey)
 		}
-		if strings.HasPrefix(o.ID, "E1.keyset.remote.decoder") {
+		if strings.HasPrefix(o.ID, "E1.keyset.remote.decoder") || o.ID == "E1.keyset.remote.cached-error-only-exact" { // the latter: any other cache miss (no key, ambiguous keys) falls through to the refresh
 			sharedObs["C13"] = append(sharedObs["C13"], o) // "a token signed by a served key verifies", "unknown kty is skipped"
 		}
 		if strings.HasPrefix(o.ID, "E1.parse.") {
